@@ -190,6 +190,11 @@ Definition api (ask : string -> list val -> val) : list api_entry :=
       | _ => k <- AddrAdaByron.wallet_key (derive by_der) m i1 i2 ;; Ok (VL [VB (Bip32Kholaw.n_pub k); VB (Bip32Kholaw.n_cc k)])
       end
     | _ => bad_call end);
+  (* Bip44(CARDANO_BYRON_LEDGER (scheme 0) / CARDANO_BYRON_ICARUS (scheme 1)) address at acc/change/index *)
+  ("ada_icarus_wallet", fun a => match a with [VN scheme; VB seed; VZ acc; VZ chg; VZ idx] =>
+      m <- start scheme seed [] ;;
+      rb (AddrAdaByron.icarus_wallet_address sha3 blake224 crc32 pt (e_dec ask) (derive kh_der) m acc chg idx)
+    | _ => bad_call end);
   (* HdPathFromAddress of an arbitrary address string under the wallet of [seed] *)
   ("ada_byron_path_from", fun a => match a with [VB seed; VB s] =>
       m <- start 2%N seed [] ;;
